@@ -304,6 +304,9 @@ func (ck *checker) compare(in *input, mode string, od bool, rr realRun, truth ma
 		if len(t) > 0 {
 			rep.Count("trace-head:" + kindOf(t[0].GraphNode))
 		}
+		if kv["replay0"] != "1" && kv["replay1"] == "1" {
+			rep.Count("trace-is-path-of-repaired-model-only(closureCheck)")
+		}
 		if kv["wf"] != "1" {
 			weak := "not even by the closure-trace jump"
 			if kv["weak"] == "1" {
